@@ -6,7 +6,7 @@ RULE = ("each of the 9 entropy codecs: encode a block after 7 leading bits, appe
 
 def check(run):
     from props import _stream
-    _stream.check(run, PID, "c12", RULE, extra_cmds=("bcm", "fpm"))
+    _stream.check(run, PID, "c12", RULE, extra_cmds=("bcm", "fpm", "alm"))
 
 def replay(path):
     import json
